@@ -1,7 +1,7 @@
 SPECIFICATION TraceSpec
 CONSTANTS
   P <- PFromTrace
-  J <- JFromTrace
+  JobIds <- JobIdsFromTrace
   R <- RFromTrace
   BossWorks <- BossFromTrace
 INVARIANTS TypeOK ExactlyOnce AtMostOnce MapTruthful MapComplete RealJobs Drained StackSound FinishSafe NotAccepted
